@@ -91,7 +91,7 @@ def run(mod, tier, seed, replay=None):
                 if cls and cls[0] in known:
                     rep.known(cls[0], cls[1])
                     continue
-                if reported >= 5:
+                if reported >= 2:
                     continue
                 reported += 1
                 kind = f["kind"]
